@@ -1361,3 +1361,41 @@ func relationConstRight(cond ssa.Value, branch bool) (op token.Token, x, y ssa.V
 	}
 	return
 }
+
+// mustPassBetween reports whether every CFG path from instruction `from` (exclusive) to `to` crosses
+// an instruction of via.
+func mustPassBetween(from, to ssa.Instruction, via map[ssa.Instruction]bool) bool {
+	return pathAvoiding(from, func(in ssa.Instruction) bool { return in == to }, func(in ssa.Instruction) bool { return via[in] }) == nil
+}
+
+// canFollowSameRound is canFollow without back edges: b can run after a before any enclosing loop
+// starts its next iteration (SSA values of the body then stand for the same dynamic values).
+func canFollowSameRound(a, b ssa.Instruction) bool {
+	if a.Block() == b.Block() && instrIndex(b) > instrIndex(a) {
+		return true
+	}
+	seen := map[*ssa.BasicBlock]bool{}
+	var work []*ssa.BasicBlock
+	push := func(from *ssa.BasicBlock) {
+		for _, s := range from.Succs {
+			if s.Dominates(from) {
+				continue // back edge
+			}
+			work = append(work, s)
+		}
+	}
+	push(a.Block())
+	for len(work) > 0 {
+		x := work[len(work)-1]
+		work = work[:len(work)-1]
+		if seen[x] {
+			continue
+		}
+		seen[x] = true
+		if x == b.Block() {
+			return true
+		}
+		push(x)
+	}
+	return false
+}
